@@ -299,6 +299,31 @@ theorem potential_mono_charge (r rho1 rho2 : List ℝ) (hg : GridMP r)
 example : GridMP [0, 1, 2, 3.5, 6] := by
   simp only [GridMP, StepsOk]; norm_num
 
+/-- **the uniform-grid potential solves its finite-difference system exactly and obeys the same maximum
+principle**, for every positive step and every number of nodes -/
+theorem potential_uniform_solves_fd (r0 r1 : ℝ) (rest rho : List ℝ) (h01 : r0 < r1) (hl : rho.length = rest.length + 2) :
+    mulTri 0 (withRhs (fdUniform (r0 :: r1 :: rest)) (poissonRhs rho)) (potentialUniform (r0 :: r1 :: rest) rho)
+      = poissonRhs rho := by
+  have hP := poisRows_fdUniform r0 r1 rest (poissonRhs rho) h01 (by rw [poissonRhs_length, hl])
+  have := solve_correct_of_pois _ hP
+  unfold potentialUniform
+  rw [this]
+  exact withRhs_map_b _ _ (by rw [fdUniform_length, poissonRhs_length, hl])
+
+theorem potential_uniform_monotone (r0 r1 : ℝ) (rest rho : List ℝ) (h01 : r0 < r1) (hl : rho.length = rest.length + 2)
+    (hrho : ∀ v ∈ rho, v ≤ 0) :
+    List.Pairwise (· ≤ ·) (potentialUniform (r0 :: r1 :: rest) rho) ∧ ∀ v ∈ potentialUniform (r0 :: r1 :: rest) rho, v ≤ 0 := by
+  have hbl : (poissonRhs rho).length = rest.length + 2 := by rw [poissonRhs_length, hl]
+  have hP := poisRows_fdUniform r0 r1 rest (poissonRhs rho) h01 hbl
+  have hB := rhsNonneg_withRhs (fdUniform (r0 :: r1 :: rest)) (poissonRhs rho) (poissonRhs_nonneg rho hrho)
+  have hsol := solve_correct_of_pois _ hP
+  have hmono : List.Pairwise (· ≤ ·) (potentialUniform (r0 :: r1 :: rest) rho) := by
+    unfold potentialUniform
+    refine mono_of_pois _ 0 _ hP hB (by rw [solve_length]) hsol ?_
+    intro rw hrw x0 _
+    rw [fdUniform_head_l _ _ rw hrw]; simp
+  exact ⟨hmono, le_last_of_pairwise _ hmono 0 (wall_zero (r0 :: r1 :: rest) rho (by simp) (by simpa using hl)).2⟩
+
 /-! ### non-vacuity -/
 example : GridOk [0, 1, 3] := by
   refine ⟨by simp [List.pairwise_cons], fun _ => by simp⟩
